@@ -503,6 +503,8 @@ func (h *harness) doAcq(s int, st Step) (string, *verr) {
 		desc += ", a dial it starts returns a fresh connection at once"
 	case 2:
 		desc += ", a dial it starts returns an error at once"
+	case 3:
+		desc += ", a dial it starts returns at once a connection that the dial function has closed itself"
 	}
 	h.mu.Lock()
 	if st.G {
